@@ -11,7 +11,7 @@ CONSTANTS
   NoWgWait = FALSE
   ExactScan = FALSE
   MaxFaults = 6
-  Kinds = {"stale"}
+  Kinds = {"stale", "dead"}
   CancelCalls = {1, 2, 3, 4, 5, 6}
   EnvTClose = TRUE
   OrderedStart = FALSE
